@@ -87,6 +87,39 @@ theorem broadcast_windowRule_eq (w : Win) (frame payload : Bytes) :
   rw [h]
   by_cases hd : (goIdx frame 0).toNat / 64 % 2 = 1 <;> simp [hd]
 
+/-- which compressor a connection's deflater is built with (the constructor calls themselves stay outside the translation:
+their arguments are what the property depends on) -/
+inductive Built where
+  | default (level : Int)     -- `flate.NewWriter`: the library's 32 KiB window
+  | window (size : Int)       -- `flate.NewWriterWindow(size)`: matches at most `size` bytes back
+deriving DecidableEq, Repr
+
+/-- `deflater.initialize`: the side's own negotiated window bits pick the compressor — the unrestricted 32 KiB writer only for
+15 bits, otherwise a writer limited to exactly 2^bits = the size of the model's window (`Win.init bits`), the bound every
+back-reference of C02 is proved against -/
+theorem compressor_window (isServer : Bool) (serverBits clientBits : Nat) (level : Int) :
+    Trans.deflater_initialize_window (R := Built) (ret := fun _ => Built.default 0)
+        (flate_NewWriter := fun l _ => .error (Built.default l)) (flate_NewWriterWindow := fun n _ => .error (Built.window n))
+        (options_ClientMaxWindowBits := (clientBits : Int)) (options_Level := level) (options_ServerMaxWindowBits := (serverBits : Int))
+        (isServer := isServer)
+      = .error (let bits := if isServer then serverBits else clientBits
+                if bits = 15 then Built.default level else Built.window (((Win.init bits).size : Nat) : Int)) := by
+  unfold Trans.deflater_initialize_window
+  cases isServer <;> simp only [Bool.false_eq_true, ↓reduceIte, BinaryPow_eq]
+  · by_cases h : clientBits = 15
+    · subst h; rfl
+    · have : ((clientBits : Int) == (15 : Int)) = false := by simp; omega
+      simp [this, h]
+  · by_cases h : serverBits = 15
+    · subst h; rfl
+    · have : ((serverBits : Int) == (15 : Int)) = false := by simp; omega
+      simp [this, h]
+
+example : Trans.deflater_initialize_window (R := Built) (ret := fun _ => Built.default 0)
+    (flate_NewWriter := fun l _ => .error (Built.default l)) (flate_NewWriterWindow := fun n _ => .error (Built.window n))
+    (options_ClientMaxWindowBits := 15) (options_Level := 1) (options_ServerMaxWindowBits := 9) (isServer := true)
+      = .error (Built.window 512) := by rfl
+
 example : Trans.slideWindow_Write [1, 2, 3] (c_enabled := true) (c_dict := [9, 8]) (c_size := 4) = ([8, 1, 2, 3], 3, none) := by decide
 example : Trans.internal_binaryCeil 129 = 256 ∧ Trans.internal_BinaryPow 8 = 256 := by decide
 
